@@ -11,7 +11,7 @@ use blots_core::values::SerializableValue;
 use proptest::prelude::*;
 use serde::{Deserialize, Serialize};
 
-pub const RULE: &str = "paths: finite doubles (uniform bit patterns, boundary pool, powers of 2 and 10 +-1 ulp, integers k +-1 ulp, the 1e15 / 1e21 printing thresholds, 2^53 neighbourhood, subnormals, f64::MAX, -0) through to_number(to_string(x)), JSON output->input, closure capture -> emitted source -> reload -> call, and literal -> format_expr (several widths) -> parse; all compared by bit pattern. literals: spellings of the exact decimal value of a double (underscore groups, shifted point with compensating exponent, e/E, signed exponent, leading dot, leading zeros, leading +), exact midpoints between adjacent doubles and midpoint +- tiny, short mantissas (1..19 digits) with exponents up to +-330 (reference: Rust's correctly rounded parser), and 0x / 0b literals with underscores, evaluated as literals and read by to_number, compared with the correctly rounded reference double (computed by construction with exact decimal arithmetic / u128). Lists of numbers (runs with a constant step of length 2..33 starting at whole, fractional and -0 values; short numbers around one very long or very small one; random lists of 2..40) go through closure capture -> emitted source -> reload and through list literal -> format_expr at six widths -> evaluation, compared position by position by bit pattern. Non-trivial = the double is not an integer below 2^53, or the spelling uses >= 2 optional features; distinct by bit pattern / literal text.";
+pub const RULE: &str = "paths: finite doubles (uniform bit patterns, boundary pool, powers of 2 and 10 +-1 ulp, integers k +-1 ulp, the 1e15 / 1e21 printing thresholds, 2^53 neighbourhood, subnormals, f64::MAX, -0) through to_number(to_string(x)), JSON output->input, closure capture -> emitted source -> reload -> call (the captured number used bare, inside index brackets, as a call argument, in a record literal, in a list literal and as an applied lambda's argument), and literal -> format_expr (several widths) -> parse; all compared by bit pattern. literals: spellings of the exact decimal value of a double (underscore groups, shifted point with compensating exponent, e/E, signed exponent, leading dot, leading zeros, leading +), exact midpoints between adjacent doubles and midpoint +- tiny, short mantissas (1..19 digits) with exponents up to +-330 (reference: Rust's correctly rounded parser), and 0x / 0b literals with underscores, evaluated as literals and read by to_number, compared with the correctly rounded reference double (computed by construction with exact decimal arithmetic / u128). Lists of numbers (runs with a constant step of length 2..33 starting at whole, fractional and -0 values; short numbers around one very long or very small one; random lists of 2..40) go through closure capture -> emitted source -> reload and through list literal -> format_expr at six widths -> evaluation, compared position by position by bit pattern. Non-trivial = the double is not an integer below 2^53, or the spelling uses >= 2 optional features; distinct by bit pattern / literal text.";
 pub const ASSUMPTIONS: &[&str] = &[
     "Rust's exact float formatting and the harness decimal arithmetic are the trusted base for reference values",
     "radix literals >= 2^63 may be rejected with an error (the implementation parses through i64) but must never evaluate to a wrong value",
@@ -119,6 +119,39 @@ impl Check for Numbers {
                         }
                     }
                     Err(e) => fail!(format!("emit:{}", cls), "closure capturing {:e} is emitted as {} which does not reload: {}", x, jtext, e),
+                }
+                // P3b: the captured number sits inside index brackets, call arguments and a record
+                // literal of the emitted body
+                if x.is_finite() {
+                    let body = "() => [[7, 8][x - x] + x, max(x, x), {v: x}.v, [x][0], (y => y)(x)]";
+                    let f = match sess.eval_src(body) {
+                        Ok(v) => v,
+                        Err(e) => fail!("emit:harness", "cannot build closure: {}", e),
+                    };
+                    let want = sess.probe("[7 + x, x, x, x, x]");
+                    let reloaded = SerializableValue::from_value(&f, &sess.heap.borrow())
+                        .map_err(|e| e.to_string())
+                        .map(|sv| serde_json::to_string(&sv.to_json()).unwrap())
+                        .and_then(|jtext| {
+                            let s3 = Sess::new();
+                            let v = serde_json::from_str::<serde_json::Value>(&jtext)
+                                .map_err(|e| e.to_string())
+                                .and_then(|v| crate::blots::from_json(&v).to_value(&mut s3.heap.borrow_mut()).map_err(|e| e.to_string()))?;
+                            s3.bind_value("f", v);
+                            Ok((jtext, s3.probe("f()")))
+                        });
+                    match reloaded {
+                        Ok((jtext, got)) => {
+                            let same = match (&got, &want) {
+                                (Ok(MV::List(a)), Ok(MV::List(b))) => a.len() == b.len() && a.iter().zip(b).all(|(p, q)| matches!((p, q), (MV::Num(F(u)), MV::Num(F(v))) if u.to_bits() == v.to_bits())),
+                                _ => false,
+                            };
+                            if !same {
+                                fail!(format!("emit-positions:{}", cls), "a closure using the captured {:e} in index brackets, arguments and a record is emitted as {} and returns {:?} after reload, in-process {:?}", x, short(&jtext), got, want);
+                            }
+                        }
+                        Err(e) => fail!(format!("emit-positions:{}", cls), "closure capturing {:e} does not survive emission: {}", x, e),
+                    }
                 }
                 // P4: literal -> formatter -> parser
                 let lit = format!("v = {}", crate::model::mv::num_source(x, false));
